@@ -1353,6 +1353,27 @@ class FileBuilder:
         suboperations of the specified cached ``ComplexOperation``
         entry.
         """
+        applied_filenames = []
+        try:
+            self._apply_cached_suboperations_helper(
+                operation, applied_filenames)
+        except Exception:
+            # Undo the changes to _build_dirs for all of the files in the
+            # operation tree, not just the one where the error occurred,
+            # because we aren't going to use any of the cached results
+            for filename in reversed(applied_filenames):
+                self._build_dirs.error_building_file(filename)
+            raise
+
+    def _apply_cached_suboperations_helper(self, operation, applied_filenames):
+        """Implementation of ``_apply_cached_suboperations``.
+
+        Arguments:
+            operation (ComplexOperation): The operation.
+            applied_filenames (list<str>): A list to which to append
+                the filenames of the files for which we have called
+                ``_build_dirs.started_building_file``.
+        """
         for suboperation in operation.suboperations:
             if (isinstance(suboperation, BuildFileOperation) and
                     not suboperation.raised):
@@ -1360,14 +1381,13 @@ class FileBuilder:
                 created_dirs = self._make_dirs(os.path.dirname(filename))
                 locked_created_dirs = self._build_dirs.started_building_file(
                     filename, created_dirs)
-                try:
-                    self._ensure_dirs_case(locked_created_dirs)
-                    self._apply_cached_suboperations(suboperation)
-                except Exception:
-                    self._build_dirs.error_building_file(filename)
-                    raise
+                applied_filenames.append(filename)
+                self._ensure_dirs_case(locked_created_dirs)
+                self._apply_cached_suboperations_helper(
+                    suboperation, applied_filenames)
             elif isinstance(suboperation, ComplexOperation):
-                self._apply_cached_suboperations(suboperation)
+                self._apply_cached_suboperations_helper(
+                    suboperation, applied_filenames)
 
     def _dirs_to_make(self, dir_, created_files):
         """Return the parents of ``dir_`` needed to create to make ``dir_``.
